@@ -31,7 +31,8 @@ EXPLANATION = (
     'that ends in a helper call the black call is the sigma-image of the white call (same helper, negated result, colour-swapped '
     'arguments with squares rotated by 180 degrees, side to move inverted, score negated).'
     ' (5) addSubWeights only loads, stores and applies wrapping 16-bit add / subtract in matching numbers (no clamp, no saturating intrinsic) in every build variant, and the full refresh uses the same routine as the incremental update.'
-    ' Added later; (7) the classification pass endGameEval<false>, whose result is cached under the material signature alone, branches only on functions of the material (signature, sums, piece counts, presence tests; sums of square-restricted counts over a partition of the board count as piece counts).')
+    ' Added later; (7) the classification pass endGameEval<false>, whose result is cached under the material signature alone, branches only on functions of the material (signature, sums, piece counts, presence tests; sums of square-restricted counts over a partition of the board count as piece counts).'
+    ' Added later; (8) no right shift of a signed value that may be negative in Evaluate / EndGameEval (reaching definitions prove non-negativity).')
 UNDECIDED = ('numerical equality of incremental and from-scratch network outputs and of the SIMD kernels beyond the group-structure clause 5 (value-level), '
              'left-right mirror symmetry of the network, endgame cases that are written inline rather than as helper calls (listed as not covered).')
 ASSUMPTIONS = ['position domain: at most 30 non-king men', 'the helper evaluations (k*Eval) themselves are written from white\'s point of view']
@@ -50,6 +51,7 @@ def run(fb, rep, tier):
     c5_accumulator(fb, rep)
     c6_invalidate_current(fb, rep)
     c7_classification_is_material(fb, rep)
+    c8_odd_arithmetic(fb, rep)
 
 
 # SIMD kernels are selected by compile definitions: the thorough tier re-runs the rules on these builds too
@@ -848,3 +850,100 @@ def c7_classification_is_material(fb, rep):
     rep.floor(clause, 'live branch conditions of the classification pass', n_cond, 20)
     rep.ob(clause, 'K13 cache-key completeness', 'every live branch condition of endGameEval<false> is a function of the material (signature, sums, piece counts, presence tests)',
            not bad, '%s:%s' % (f.file, bad[0][0]) if bad else f.where, '%d conditions; not material: %s' % (n_cond, bad[:3]), f.sname)
+
+
+# ----------------------------------------------------------------------------- .8
+
+def c8_odd_arithmetic(fb, rep):
+    """K10 colour symmetry of the score arithmetic.  The evaluation works on a white-point-of-view score; the colour-swapped
+    position must get exactly the negated score, so every operation applied to it must be an odd function.  Integer
+    division truncates towards zero (odd); an arithmetic right shift rounds towards minus infinity (not odd): a negative
+    score that does not divide exactly comes out one lower than the negated positive one.  So in the evaluation a right
+    shift of a signed value is allowed only where the value is provably non-negative (built from abs(), counts and
+    non-negative constants)."""
+    clause = 'C07.8'
+    funcs = [f for f in fb.funcs.values() if f.has_cfg and (f.d.get('cls') in ('Evaluate', 'EndGameEval') or f.sname.startswith(('Evaluate::', 'EndGameEval::')))]
+    rep.floor(clause, 'evaluation functions scanned for shifts of signed scores', len(funcs), 10)
+    UNSIGNED = ('U64', 'U32', 'U16', 'U8', 'unsigned', 'size_t', 'uint')
+    n = 0
+    bad = []
+    for f in sorted(funcs, key=lambda x: x.key):
+        inits, assigned = {}, set()
+        for _, _, e in f.events():
+            if e.get('k') == 'decl':
+                for v in e.get('vars', []):
+                    if v.get('init') is not None:
+                        inits[v['id']] = v['init']
+            for x in walk(e):
+                if x.get('k') in ('asg', 'incdec'):
+                    tgt = _strip77(x.get('l') if x.get('k') == 'asg' else x.get('e'))
+                    if isinstance(tgt, dict) and tgt.get('k') == 'var':
+                        assigned.add(tgt.get('id'))
+
+        def nonneg(t, depth=0):
+            t = _strip77(t)
+            if not isinstance(t, dict) or depth > 6:
+                return False
+            if 'cv' in t and t.get('k') != 'var':
+                return t['cv'] >= 0
+            if any(u in str(t.get('t', '')) for u in UNSIGNED):
+                return True
+            if t.get('k') == 'call':
+                nm = cname(t)
+                if nm in ('std::abs', 'abs', 'BitBoard::bitCount', 'BitUtil::lastBit', 'BitUtil::bitCount'):
+                    return True
+                if nm in ('std::min', 'std::max'):
+                    return all(nonneg(a, depth + 1) for a in t.get('args', [])) if nm == 'std::min' else any(nonneg(a, depth + 1) for a in t.get('args', []))
+                return False
+            if t.get('k') == 'bin' and t.get('op') in ('+', '*', '>>', '/', '&'):
+                return nonneg(t.get('l'), depth + 1) and (nonneg(t.get('r'), depth + 1) or t['op'] in ('>>', '&'))
+            if t.get('k') == 'var':
+                if 'cv' in t:
+                    return t['cv'] >= 0
+                # every definition of the variable that reaches this use is non-negative
+                vid = t.get('id')
+
+                def is_def(ev_):
+                    if ev_ is None:
+                        return False
+                    if ev_.get('k') == 'decl' and any(v_.get('id') == vid for v_ in ev_.get('vars', [])):
+                        return True
+                    return any((x_.get('k') == 'asg' and (_strip77(x_.get('l')) or {}).get('id') == vid) or
+                               (x_.get('k') == 'incdec' and (_strip77(x_.get('e')) or {}).get('id') == vid) for x_ in walk(ev_))
+                defs = []
+                for b2, i2, e2 in f.events():
+                    if not is_def(e2):
+                        continue
+                    if e2 is cur_event[0]:
+                        reach = f.path_avoiding((b2, i2), lambda z: z is cur_event[0], lambda z: z is not e2 and is_def(z)) is not None
+                    else:
+                        reach = f.path_avoiding((b2, i2), lambda z: z is cur_event[0], lambda z: z is not cur_event[0] and is_def(z)) is not None
+                    if not reach:
+                        continue
+                    if e2.get('k') == 'decl':
+                        defs += [v_.get('init') for v_ in e2.get('vars', []) if v_.get('id') == vid]
+                    else:
+                        for x_ in walk(e2):
+                            if x_.get('k') == 'asg' and (_strip77(x_.get('l')) or {}).get('id') == vid:
+                                defs.append(x_.get('r') if x_.get('op') == '=' else None)
+                            if x_.get('k') == 'incdec' and (_strip77(x_.get('e')) or {}).get('id') == vid:
+                                defs.append(None)
+                if t.get('vk') == 'param' or not defs or None in defs or depth >= 4:
+                    return False
+                return all(nonneg(d, depth + 2) for d in defs)
+            return False
+        cur_event = [None]
+        for b, i, e in f.events():
+            cur_event[0] = e
+            for x in walk(e):
+                if (x.get('k') == 'bin' and x.get('op') == '>>') or (x.get('k') == 'asg' and x.get('op') == '>>='):
+                    l = x.get('l')
+                    lt = str((_strip77(l) or {}).get('t', ''))
+                    if any(u in lt for u in UNSIGNED) or any(u in str(x.get('t', '')) for u in UNSIGNED):
+                        continue
+                    n += 1
+                    if not nonneg(l):
+                        bad.append((f.sname, '%s:%s' % (f.file, e.get('ln') or f.line), show(x, 70)))
+    rep.ob(clause, 'K10 odd arithmetic', 'the evaluation never right-shifts a signed value that may be negative (a shift rounds towards minus infinity: colour-swapped positions would differ)',
+           not bad, '%s' % (bad[0][1] if bad else ''), '%d shift(s) of signed values; possibly negative: %s' % (n, bad[:3]), bad[0][0] if bad else 'Evaluate')
+    rep.counts['%s signed right shifts in the evaluation' % clause] = (n, 0)
